@@ -305,7 +305,7 @@ fn extra_programs() -> Vec<ArgCase> {
     }
     // the element an array-element argument denotes is fixed when the call is made: its subscripts are
     // evaluated once, whatever the callee does to the variables in them
-    for variant in 0..6 {
+    for variant in 0..8 {
         let mut b = B::new();
         let p_int = |n: &str| Param { name: n.into(), ty: None, is_array: false };
         let mut subs = vec![];
@@ -360,17 +360,41 @@ fn extra_programs() -> Vec<ArgCase> {
                 main.push(b.s(K::Call("SetBoth".into(), vec![var("I%"), el(bin(BinOp::Add, var("I%"), num(1)))])));
                 "the subscript is an expression of a variable the callee changes"
             }
-            _ => {
+            5 => {
                 main.push(b.s(K::Read(vec![el(call("NextIx%", vec![]))])));
                 main.push(b.s(K::Data(vec![DataItem::Num("77".into())])));
                 "READ into an element whose subscript is a FUNCTION with a side effect"
             }
+            6 => {
+                // a later argument of the same call is a FUNCTION that changes the subscript variable through its own parameter
+                main.push(b.assign(var("B%"), num(0)));
+                main.push(b.s(K::Call("SetBoth".into(), vec![el(var("I%")), bin(BinOp::Add, call("Twice%", vec![var("I%")]), num(0))])));
+                "a later argument is a FUNCTION that changes the subscript variable by reference"
+            }
+            _ => {
+                // the callee fails, the module-level handler changes the subscript variable and resumes in the callee
+                main.insert(0, b.s(K::OnErrorGoto("Fix".into())));
+                main.push(b.s(K::Call("Trip".into(), vec![el(var("I%"))])));
+                "an error inside the callee whose handler changes the subscript variable"
+            }
         };
+        if variant == 7 {
+            // SUB Trip (V%): V% = 5: V% = V% \ 0 -> handler: I% = 3: RESUME NEXT; V% = V% + 1
+            let body = vec![b.assign(var("V%"), num(5)), b.assign(var("Z%"), bin(BinOp::Div, num(1), var("ZERO%"))), b.assign(var("V%"), bin(BinOp::Add, var("V%"), num(1)))];
+            let id = b.id();
+            subs.push(SubDef { id, name: "Trip".into(), is_function: false, params: vec![p_int("V%")], body, is_static: false });
+        }
         main.push(b.print(vec![var("I%"), var("CNT%"), el(num(1)), el(num(2)), el(num(3))]));
+        if variant == 7 {
+            main.push(b.s(K::End));
+            main.push(b.s(K::Label("Fix".into())));
+            main.push(b.assign(var("I%"), num(3)));
+            main.push(b.s(K::ResumeNext));
+        }
         out.push(ArgCase { prog: Prog { main, subs, declare: true, ..Default::default() }, label: format!("array element by reference: {}", label), expect_reject: false });
     }
     // a STATIC subprogram that calls itself: its variables are shared by the activations, its parameters are not
-    for variant in 0..3 {
+    for variant in 0..5 {
         for depth in 1..=3 {
             let mut b = B::new();
             let p_int = |n: &str| Param { name: n.into(), ty: None, is_array: false };
@@ -405,6 +429,31 @@ fn extra_programs() -> Vec<ArgCase> {
                     main.push(b.s(K::Call("Rec".into(), vec![var("X%")])));
                     main.push(b.print(vec![var("X%")]));
                     "by-reference argument that is a variable of the subprogram"
+                }
+                3 | 4 => {
+                    // two self-calls per activation: SUB Walk (N%) STATIC: C% = C% + 1: IF N% > 0 THEN Walk N% - 1: Walk N% - 1
+                    // (variant 4: the second call passes a variable of the subprogram by reference) : PRINT N%; C%
+                    let c1 = b.s(K::Call("Walk".into(), vec![bin(BinOp::Sub, var("N%"), num(1))]));
+                    let mut inner = vec![c1];
+                    if variant == 3 {
+                        inner.push(b.s(K::Call("Walk".into(), vec![bin(BinOp::Sub, var("N%"), num(1))])));
+                    } else {
+                        inner.push(b.assign(var("M%"), bin(BinOp::Sub, var("N%"), num(1))));
+                        inner.push(b.s(K::Call("Walk".into(), vec![var("M%")])));
+                        inner.push(b.print(vec![st("m"), var("M%")]));
+                    }
+                    let body = vec![
+                        b.assign(var("C%"), bin(BinOp::Add, var("C%"), num(1))),
+                        b.s(K::If { arms: vec![(bin(BinOp::Gt, var("N%"), num(0)), inner)], els: None, single_line: false }),
+                        b.print(vec![var("N%"), var("C%")]),
+                    ];
+                    let id = b.id();
+                    subs.push(SubDef { id, name: "Walk".into(), is_function: false, params: vec![p_int("N%")], body, is_static: true });
+                    main.push(b.assign(var("X%"), num(depth)));
+                    main.push(b.s(K::Call("Walk".into(), vec![var("X%")])));
+                    main.push(b.print(vec![var("X%")]));
+                    main.push(b.s(K::Call("Walk".into(), vec![num(1)])));
+                    if variant == 3 { "two self-calls per activation, by-reference argument from the module" } else { "two self-calls per activation, the second with a variable of the subprogram by reference" }
                 }
                 _ => {
                     // FUNCTION Fact& (N%) STATIC: the parameter is used after the recursive call returned
